@@ -73,6 +73,10 @@ def callable_name(func: Callable[..., Any]) -> str:
     if isinstance(func, partial):
         func = func.func
 
+    # An instance of a class with a __call__() method has no __qualname__ of its own
+    if not hasattr(func, "__qualname__"):
+        func = type(func)
+
     if func.__module__ == "builtins":
         return func.__name__
     else:
